@@ -168,6 +168,14 @@ def pyFormat (g : GSpec) (v : Val) : Except FErr (List Char) :=
       else if g.ty = some 's' ∨ g.ty = some 'd' ∨ g.ty = some 'b' ∨ g.ty = some 'c' ∨ g.ty = some 'o' ∨
               g.ty = some 'x' ∨ g.ty = some 'X' then .error .valueerror
       else .error .unmodelled
+    | .nan =>
+      -- `format(float('nan'), spec)`: the text `nan` (never a minus sign), padded like a number
+      if isF g.ty then
+        if g.comma then .error .unmodelled
+        else .ok (padNum g.pyFill (g.pyAlign true) g.width (signStr g false) ['n', 'a', 'n'])
+      else if g.ty = some 's' ∨ g.ty = some 'd' ∨ g.ty = some 'b' ∨ g.ty = some 'c' ∨ g.ty = some 'o' ∨
+              g.ty = some 'x' ∨ g.ty = some 'X' then .error .valueerror
+      else .error .unmodelled
 
 /-! ### the truncation of `TruncFormatter.format_field` -/
 
@@ -179,6 +187,7 @@ def effType (g : GSpec) (v : Val) : Char :=
     | .str _ => 's'
     | .int _ => 'd'
     | .fix _ => 'g'
+    | .nan => 'g'
 
 /-- alignment after the defaults of `format_field`: strings keep their left end, everything else the right end -/
 def effAlign (g : GSpec) (v : Val) : Char :=
